@@ -158,3 +158,43 @@ func sortedValue(v *Value) *Value {
 	}
 	return v
 }
+
+// cacheIndexesConsistent: the schema indexes of the client's cache say what its rows say: every uuid filed
+// under a value of an index is a row of the cache, and every row is filed exactly once per index. (A lookup by
+// index values goes through these entries: a stale one brings back a row that is gone, or a row under a value
+// it no longer holds.) Empty when consistent.
+func cacheIndexesConsistent(c cacheClient, spec SchemaSpec, tables []string) string {
+	cch := c.Cache()
+	if cch == nil {
+		return ""
+	}
+	for _, t := range tables {
+		tc := cch.Table(t)
+		ts := spec.Table(t)
+		if tc == nil || ts == nil {
+			continue
+		}
+		rows := tc.Rows()
+		for _, ix := range ts.Indexes {
+			idx, err := tc.Index(ix...)
+			if err != nil {
+				return fmt.Sprintf("table %s: Index(%v): %v", t, ix, err)
+			}
+			filed := map[string]int{}
+			for k, us := range idx {
+				for _, u := range us {
+					if _, ok := rows[u]; !ok {
+						return fmt.Sprintf("table %s index %v: value %v is filed for row %s, which the cache does not hold", t, ix, k, u)
+					}
+					filed[u]++
+				}
+			}
+			for u := range rows {
+				if filed[u] != 1 {
+					return fmt.Sprintf("table %s index %v: row %s is filed under %d values", t, ix, u, filed[u])
+				}
+			}
+		}
+	}
+	return ""
+}
